@@ -388,6 +388,12 @@ func (c *clientFile) readAt(p []byte, offset int64) (int, error) {
 		return 0, err
 	}
 
+	// A reply carrying more data than was asked for is a protocol violation
+	// by the server; it must not be counted as bytes read into p.
+	if len(rread.Data) > len(p) {
+		return 0, linux.EIO
+	}
+
 	// The message may have been truncated, or for some reason a new buffer
 	// allocated. This isn't the common path, but we make sure that if the
 	// payload has changed we copy it. See transport.go for more information.
@@ -417,6 +423,11 @@ func (c *clientFile) writeAt(p []byte, offset int64) (int, error) {
 	rwrite := rwrite{}
 	if err := c.client.sendRecv(&twrite{fid: c.fid, Offset: uint64(offset), Data: p}, &rwrite); err != nil {
 		return 0, err
+	}
+
+	// A count larger than what was sent is a protocol violation by the server.
+	if uint64(rwrite.Count) > uint64(len(p)) {
+		return 0, linux.EIO
 	}
 
 	return int(rwrite.Count), nil
